@@ -583,6 +583,9 @@ def reflect(considered: list[type], start: type, expansion: bool = False):
             return ("cls", idx[t])
         raise ValueError(f"cannot reflect type {t!r}")
 
+    for c in seen:
+        if not is_abstract(c) and "__gengy_field_names__" not in c.__dict__:
+            c.__gengy_field_names__ = tuple(n for n, _ in get_arguments(c))   # (what `canon` reads the children from)
     classes = []
     for c in seen:
         par = c.mro()[1]
